@@ -1,7 +1,9 @@
 use crate::framework::PropertyDef;
 
+pub mod c01;
+pub mod c02;
 pub mod c18;
 
 pub fn all() -> Vec<PropertyDef> {
-    vec![c18::def()]
+    vec![c01::def(), c02::def(), c18::def()]
 }
